@@ -962,3 +962,10 @@ Lemma statement_refuted : ~ full_statement.
 Proof.
   intros (_ & _ & H). specialize (H true KUintptr 5 eq_refl). vm_compute in H. discriminate H.
 Qed.
+
+(** argument copy: agrees with Go except on negative zero *)
+Lemma pass_arg_partial v : v <> FZero true -> y_pass_arg v = g_pass_arg v.
+Proof. destruct v as [[|]|b]; intros H; try reflexivity. congruence. Qed.
+
+Lemma negzero_arg_refuted : y_pass_arg (FZero true) = FZero false /\ g_pass_arg (FZero true) = FZero true.
+Proof. split; reflexivity. Qed.
